@@ -167,3 +167,16 @@ package security
 //@   requires unlocked: !held(&s.mu)
 //@   assigns lock(&s.mu), s.inherited
 //@   ensures set: s.inherited == v && !held(&s.mu)
+
+// ---- shared configuration (C17) ----------------------------------------------------------------
+// A SecurityConfig may be shared by any number of concurrent handshakes: constructing an
+// authenticator must not write it (the ephemeral ECDH key lives in a private copy).
+
+//@ func NewAuthenticator (config, s) (result)
+//@   props C17 C10
+//@   requires config != nil
+//@   assigns
+//@   ensures shared_config_untouched: config.ECDHPublicKey == old(config.ECDHPublicKey)
+//@   ensures fresh(result) && result.stream == s && !result.sessionResumed
+//@   ensures private_config: result.config != nil && (result.ecdhPrivKey != nil ==> result.config != config && fresh(result.config))
+//@   ensures policy_copied: result.config.Authentication == config.Authentication && result.config.Encryption == config.Encryption && result.config.Integrity == config.Integrity && result.config.Command == config.Command && result.config.SecurityTag == config.SecurityTag && result.config.SessionCache == config.SessionCache && result.config.PeerName == config.PeerName && result.config.SessionID == config.SessionID
